@@ -134,15 +134,17 @@ def exhaustive_string(ctx):
 def exhaustive_python(ctx):
     ctx.stratum = "main"
     atoms = []
-    for var, vals in (("python_version", ["3.7", "3.8", "3.9", "3.10", "3"]),
+    for var, vals in (("python_version", ["3.7", "3.8", "3.9", "3.10", "3", "3.8.0"]),
                       ("python_full_version", ["3.7.9", "3.8.0", "3.8", "3.8.1", "3.9.0"])):
         for v in vals:
             for op in ("==", "!=", "<", "<=", ">", ">="):
                 atoms.append(f'{var} {op} "{v}"')
             if "." in v:
                 atoms.append(f'{var} ~= "{v}"')
-            atoms.append(f'{var} == "{v}.*"')
-            atoms.append(f'{var} != "{v}.*"')
+            if not (var == "python_version" and v.count(".") >= 2):
+                # python_version has two components: a wildcard below the minor is not a well-defined atom
+                atoms.append(f'{var} == "{v}.*"')
+                atoms.append(f'{var} != "{v}.*"')
             atoms.append(f'"{v}" < {var}')
             atoms.append(f'"{v}" >= {var}')
     pairs = list(itertools.product(atoms, repeat=2))
@@ -207,6 +209,7 @@ def run(ctx):
     exhaustive_extra(ctx)
     _random_stratum(ctx, "main", MW.Cfg(), 500 if quick else 8000, 7 if quick else 9)
     _random_stratum(ctx, "prerelease", MW.Cfg(), 80 if quick else 1200, 6)
+    _random_stratum(ctx, "prelit", MW.Cfg(prelit=True, extras=False, few_vars=["os_name"]), 80 if quick else 1200, 6)
     _random_stratum(ctx, "pyin", MW.Cfg(pyin=True, few_vars=["os_name"]), 80 if quick else 1200, 6)
     _random_stratum(ctx, "revin", MW.Cfg(rev_in=True, few_vars=["sys_platform", "os_name"]), 80 if quick else 1200, 6,
                     closure_ok=False)
